@@ -39,6 +39,9 @@ def corpus():
         _sw(r10, 3, 1, {"kind": "idx", "l": [2, 1, 0]}),                # D27
         _sw(r10, 3, 2, {"kind": "idx", "l": [2, 1, 0, 0]}),
         _sw(r10, 3, 1, {"kind": "idx", "l": [0, 1, 2]}),
+        _sw(r10, 4, 1, {"kind": "idx", "l": [0, 2, 1, 3]}),            # identity at both ends only
+        _sw(r10, 5, 2, {"kind": "idx", "l": [0, 3, 3, 1, 4]}),
+        _sw(r10, 4, 1, {"kind": "idx", "l": [0, 1, 3, 2]}),
         _sw(r10, 4, 2, {"kind": "pair", "a": 1, "m": 2}),
         _sw(r10, 5, 2, None, [{"k": "differences", "start": 0, "step": 1, "stride": 2}]),   # count needs the ceiling
         _sw(r10, 5, 1, None, [{"k": "differences", "start": 1, "step": 2, "stride": 3}]),
@@ -63,7 +66,22 @@ def _rand_sample(rng, w):
     if r < 0.6:
         return {"kind": "pair", "a": rng.randint(0, w - 1), "m": rng.randint(1, w)}
     q = rng.random()
-    if q < 0.3:
+    if q < 0.15 and w >= 3:
+        # almost the identity: the code special-cases "the sample is the whole window in order"; anything that
+        # decides it from part of the list (ends, length, sum, sortedness of a prefix) errs on these
+        l = list(range(w))
+        form = rng.choice(["interior", "swap", "endswap", "dup"])
+        if form == "interior" and w >= 4:
+            mid = l[1:-1]; rng.shuffle(mid); l = [0] + mid + [w - 1]
+            if l == list(range(w)):
+                l[1], l[2] = l[2], l[1]
+        elif form == "swap":
+            i = rng.randrange(w - 1); l[i], l[i + 1] = l[i + 1], l[i]
+        elif form == "endswap":
+            l[0], l[-1] = l[-1], l[0]
+        else:
+            l[rng.randrange(1, w)] = l[0]
+    elif q < 0.3:
         l = list(range(w)); rng.shuffle(l)                      # permutation: as long as the window
     elif q < 0.45:
         l = [rng.randrange(w) for _ in range(w + rng.randint(0, 2))]   # repeats, length >= width
